@@ -23,6 +23,7 @@ from engine.lin import Aff
 from engine.common import need, AnalysisBroken
 from props import stepm, c08
 
+LOOKUP = 'binson_parser_field_with_length'
 NAV = {'next': 'binson_parser_next', 'go_into_object': 'binson_parser_go_into_object',
        'go_into_array': 'binson_parser_go_into_array', 'leave_object': 'binson_parser_leave_object',
        'leave_array': 'binson_parser_leave_array', 'get_raw': 'binson_parser_get_raw'}
@@ -46,9 +47,15 @@ class StubHooks(LibHooks):
         if r.name in ('P', 'STATE'):
             self.own_writes = getattr(self, 'own_writes', []) + ['memset %s at %s' % (r.name, ins.loc())]
 
+    MAX_LOOP_CALLS = 10
+
     def stub_call(self, st, name, args, ins):
+        if name == stepm.CMP_FN:
+            return stepm.cmp_stub(st, args)
         if name != stepm.STEP_FN:
             return None
+        if sum(1 for c in st.tags.get('calls', ()) if c[0] != 'cmp') >= self.MAX_LOOP_CALLS:
+            return []          # summaries are truncated here; the explorer reports if it ever needs a longer one
         lay = self.lay
         F = lay.parser
         mode = st.store.const_of(args[1].a) if isinstance(args[1], Int) else None
@@ -62,8 +69,7 @@ class StubHooks(LibHooks):
                 s.wcells('P')[(o.key(), F[name_][1])] = (o, F[name_][1], s.fresh_int('stub:' + name_, F[name_][1] * 8))
             o = Aff(F['error_flags'][0])
             s.wcells('P')[(o.key(), 4)] = (o, 4, Int(32, Aff(0)) if e == 0 else s.fresh_int('stub:error', 32, 1, 255))
-            o = Aff(F['current_state'][0])
-            s.wcells('P')[(o.key(), F['current_state'][1])] = (o, F['current_state'][1], Top('ptr', 'stub:current_state'))
+            # current_state keeps pointing into the state array (which entry is not modelled: all of it is havoced below)
             s.mem['STATE'] = {}
             s.owned.add('STATE')
             s.tags[('havoc', 'STATE')] = 'all'
@@ -120,7 +126,13 @@ def wrapper_summary(mod, api, flags_alphabet, type_values):
                 for field, val in (('flags', flags), ('current_type', ctype)):
                     o = base.add(S_[field][0])
                     st.wcells('STATE')[(o.key(), S_[field][1])] = (o, S_[field][1], Int(S_[field][1] * 8, Aff(val)))
+                st.tags['record_cmp_in_calls'] = True
+                C.I.ctx.limits['unroll'] = (api,)
                 args = [Ptr('P', Aff(0))]
+                if len(fn.params) == 3:      # field_with_length(parser, name, length)
+                    n_ = st.fresh('w:namelen', lay.szw, 0, lay.objmax)
+                    st.add_region(Region('USPAN', 'span', Aff.sym(n_), readonly=True, content='bytes'))
+                    args += [Ptr('USPAN', Aff(0)), Int(lay.szw, Aff.sym(n_))]
                 if len(fn.params) == 2:      # get_raw(parser, raw)
                     st.add_region(Region('OUT', 'obj', Aff(2 * lay.ptr)))
                     st.mem['OUT'] = {}
@@ -169,7 +181,7 @@ def trees(n, depth, scalars, kind):
         yield (kind, c)
 
 
-def tokens(tree, spans=None):
+def tokens(tree, spans=None, names=None):
     """token list of a document: (class, bytes); names are generated ascending.  spans (optional dict) receives
     node path -> (index of its first token, index of its last token)"""
     out = []
@@ -180,6 +192,8 @@ def tokens(tree, spans=None):
         if k == 'object':
             out.append(('object_begin', bytes([0x40])))
             for i, ch in enumerate(v[1]):
+                if names is not None:
+                    names[len(out)] = (path, i)
                 out.append(('string', bytes([0x14, 0x01, 0x61 + i])))     # field name
                 emit(ch, path + (i,))
             out.append(('object_end', bytes([0x41])))
@@ -204,6 +218,7 @@ class Machine:
         self.tc = tc
         self.enums = enums
         self.cache = {}
+        self.prop = 'C06'
 
     def tokclass(self, b):
         for name, (lo, hi) in self.tc.items():
@@ -237,38 +252,54 @@ class Machine:
                 return False
         return True
 
-    def step(self, doc, st, mode, O, AO):
-        """one iteration; st = (ti, depth, levels, ) -> ('cont', st', mode') | ('ret', st', r) | ('err', code, why)"""
+    def step(self, doc, st, mode, O, AO, lookup=False, want=None):
+        """one iteration; st = (ti, depth, levels) with levels[i] = (flags, array_depth, current_type, name token or None)
+        -> ('cont', st', mode') | ('ret', st', r) | ('err', code, why).  `want(ti)` is the oracle for the comparison of the
+        name token ti with the name being looked up; the ordering comparison of a valid document always says "less"."""
         ti, depth, levels = st
         toks, offs, total, ptype, md = doc
         if ti >= len(toks):
             return ('err', 'end', 'the cursor is at the end of the buffer and another token is read')
         cls, raw = toks[ti]
         b = max(depth - 1, 0)
-        flags, adepth, ctype = levels[b]
-        key = (self.tokclass(raw[0]), flags, depth == 0, False)
+        flags, adepth, ctype, nametok = levels[b]
+        key = (self.tokclass(raw[0]), flags, depth == 0, bool(lookup))
         bymode = self.table.get(key)
-        need(bymode is not None and mode in bymode, 'C06: no extracted step for %r mode 0x%02x' % (key, mode))
+        need(bymode is not None and mode in bymode, '%s: no extracted step for %r mode 0x%02x' % (self.prop, key, mode))
         env = {'k:md': md, 'k:bs': total, 'k:u': offs[ti], 'k:O': O, 'k:AO': AO, 'k:A': adepth, 'k:ctype': ctype,
                'k:tok': raw[0], 'k:ptype': ptype}
         if depth > 0:
             env['k:D'] = depth
+        wsign = None
         ck = (key, mode, tuple(sorted(env.items())))
         hit = self.cache.get(ck)
         if hit is None:
-            cands = [o for o in bymode[mode] if self.holds(o['cond'], env)]
-            good = [o for o in cands if o['err'] == 0]
-            views = {}
-            for o in good:
-                views.setdefault(self.view(o, env), o)
-            hit = (views, cands)
+            hit = [o for o in bymode[mode] if self.holds(o['cond'], env)]
             self.cache[ck] = hit
-        views, cands = hit
+        cands = []
+        for o in hit:
+            ok = True
+            for (kinds, sign) in o.get('cmps', ()):
+                if kinds == ('level', 'local'):
+                    ok = ok and sign == -1            # valid document: every name is greater than the previous one
+                elif kinds == ('local', 'wanted'):
+                    if wsign is None:
+                        need(want is not None, '%s: a lookup comparison is made outside a lookup' % self.prop)
+                        wsign = want(ti)
+                    ok = ok and sign == wsign
+                else:
+                    raise AnalysisBroken('%s: unexpected name comparison %r in the token loop' % (self.prop, kinds))
+            if ok:
+                cands.append(o)
+        views = {}
+        for o in cands:
+            if o['err'] == 0:
+                views.setdefault(self.view(o, env), o)
         if not views:
             codes = sorted({o['err'] for o in cands})
             return ('err', codes, 'every outcome of this step on a valid token raises an error (codes %r)' % codes)
         if len(views) > 1:
-            raise AnalysisBroken('C06: step %r mode 0x%02x is not determined by the modelled state: %r' % (key, mode, sorted(views, key=repr)[:3]))
+            raise AnalysisBroken('%s: step %r mode 0x%02x is not determined by the modelled state: %r' % (self.prop, key, mode, sorted(views, key=repr)[:3]))
         (v,) = views
         kind, retsf, ddepth, csl, cursor, eff = v
         lv = list(levels)
@@ -276,21 +307,25 @@ class Machine:
             i = b + lvl
             if not (0 <= i < len(lv)):
                 return ('err', 'state', 'a state entry outside the array is written (level %d)' % i)
-            f, a, c = lv[i]
+            f, a, c, n = lv[i]
             if field == '*':
-                f, a, c = 0, 0, 0
+                f, a, c, n = 0, 0, 0, None
             elif field == 'flags':
                 f = val
             elif field == 'array_depth':
                 a = val
             elif field == 'current_type':
                 c = val
-            lv[i] = (f, a, c)
+            elif field == 'name':
+                n = ti
+            lv[i] = (f, a, c, n)
         nd = depth + ddepth
         if cursor == 'adv':
             nti = ti + 1
         elif cursor == 'same':
             nti = ti
+        elif cursor == 'back' and lookup:
+            nti = ti          # the rewind of an overshooting lookup: back to the start of the name token (C07 decides the amount)
         else:
             return ('err', 'cursor', 'cursor movement %r of a non-error step' % cursor)
         nb = max(nd - 1, 0)
@@ -313,19 +348,24 @@ class Machine:
                         val += k * env[oname]
                     val &= 0xff if field == 'array_depth' else 0xffffffff
                 else:
-                    raise AnalysisBroken('C06: value written to %s is not expressible over the loop-head state: %r' % (field, desc))
+                    raise AnalysisBroken('%s: value written to %s is not expressible over the loop-head state: %r' % (self.prop, field, desc))
                 eff.append((lvl, field, val))
             elif field == '*':
                 eff.append((lvl, '*', 0))
-        return (o['kind'], o.get('ret') if o['kind'] == 'ret' else o.get('sf'), o['ddepth'], o['cs_level'], o['cursor'], tuple(sorted(eff)))
+            elif field is not None and str(field).startswith('current_name'):
+                eff.append((lvl, 'name', 0))
+        cur = o['cursor']
+        if cur == 'back' and o['cursor_by'][0] == 'c' and o['cursor_by'][1] == 0:
+            cur = 'same'
+        return (o['kind'], o.get('ret') if o['kind'] == 'ret' else o.get('sf'), o['ddepth'], o['cs_level'], cur, tuple(sorted(set(eff))))
 
-    def loop(self, doc, st, mode):
+    def loop(self, doc, st, mode, lookup=False, want=None):
         """a call of the token loop -> ('ok', st', r) | ('err', ...)"""
         ti, depth, levels = st
         O = depth
         AO = levels[max(depth - 1, 0)][1]
         for _ in range(len(doc[0]) + 4):
-            r = self.step(doc, st, mode, O, AO)
+            r = self.step(doc, st, mode, O, AO, lookup, want)
             if r[0] == 'err':
                 return r
             if r[0] == 'ret':
@@ -333,26 +373,40 @@ class Machine:
             st, mode = r[1], r[2]
         return ('err', 'loop', 'the token loop does not stop within tokens+4 iterations')
 
-    def call(self, doc, st, api):
-        """-> ('ok', st', ret) | ('err', what)"""
+    def call(self, doc, st, api, want=None, wantname=None):
+        """-> ('ok', st', ret) | ('err', what).  want(ti): sign of compare(name token ti, wanted name);
+        wantname(ti): sign of compare(wanted name, name token ti)"""
         ti, depth, levels = st
-        f, a, c = levels[max(depth - 1, 0)]
+        f, a, c, n = levels[max(depth - 1, 0)]
         paths = self.wrappers[api].get((f, c, depth == 0))
-        need(paths is not None, 'C06: no summary of %s for level flags 0x%x / type %d' % (api, f, c))
+        need(paths is not None, '%s: no summary of %s for level flags 0x%x / type %d' % (self.prop, api, f, c))
         done = ()
         while True:
             cands = [p for p in paths if p['calls'][:len(done)] == done]
-            need(cands, 'C06: summary of %s has no path for the call history %r' % (api, done))
+            need(cands, '%s: summary of %s has no path for the call history %r' % (self.prop, api, done))
             finals = [p for p in cands if len(p['calls']) == len(done)]
             if finals:
                 rets = {p['ret'] for p in finals}
-                need(len(rets) == 1 and len(finals) == len(cands), 'C06: summary of %s is ambiguous after %r' % (api, done))
+                need(len(rets) == 1 and len(finals) == len(cands), '%s: summary of %s is ambiguous after %r' % (self.prop, api, done))
                 return ('ok', st, rets.pop())
-            nxt = {p['calls'][len(done)][:2] for p in cands}
-            need(len(nxt) == 1, 'C06: summary of %s passes different scan modes after %r' % (api, done))
-            mode, lookup = nxt.pop()
-            need(mode is not None and not lookup, 'C06: %s calls the token loop with a non-constant mode or a lookup name' % api)
-            r = self.loop(doc, st, mode)
+            heads = {p['calls'][len(done)][:2] for p in cands}
+            need(len(heads) == 1, '%s: summary of %s does different things after %r' % (self.prop, api, done))
+            h = heads.pop()
+            if h[0] == 'cmp':
+                # the function itself compares names: (wanted name, name recorded at the current level)
+                need(h[1] == ('local', 'level') and wantname is not None, '%s: %s makes an unexpected name comparison %r' % (self.prop, api, h[1]))
+                nt = st[2][max(st[1] - 1, 0)][3]
+                if nt is None:
+                    return ('err', 'name', '%s compares with the current name although no name is recorded at this level' % api)
+                sg = wantname(nt)
+                if sg is None:
+                    return ('err', 'name', '%s compares the wanted name with a name recorded for another object (the cursor left the object)' % api)
+                done = done + (('cmp', h[1], sg),)
+                continue
+            mode, lookup = h
+            need(mode is not None, '%s: %s calls the token loop with a non-constant mode' % (self.prop, api))
+            need(not lookup or want is not None, '%s: %s passes a lookup name' % (self.prop, api))
+            r = self.loop(doc, st, mode, lookup, want)
             if r[0] == 'err':
                 return r
             st = r[1]
@@ -375,8 +429,9 @@ class Ref:
         return ((), False, 'start')
 
     @staticmethod
-    def moves(tree, rs):
-        """protocol-following calls in state rs -> list of (api, expected ret, expected ddepth, expected type or None, rs')"""
+    def moves(tree, rs, lookups=False):
+        """protocol-following calls in state rs -> list of (api, expected ret, expected ddepth, expected type or None, rs')
+        api ('field', r) is a lookup of a name of rank r: field i of the object has rank 2i+1, even ranks lie between"""
         stack, fresh, phase = rs
         out = []
         if phase == 'done':
@@ -399,6 +454,24 @@ class Ref:
             k = kids[pos][0]
             out.append(('go_into_' + k, 1, 1 if k == 'object' else 0, None, stack + ((path + (pos,), -1),), False, 'in'))
             out.append(('get_raw', 1, 0, None, stack, False, 'in'))
+        # field lookup (inside an object): found iff a field with that name exists behind the cursor; a failed lookup passes
+        # only fields with smaller names
+        if lookups and cont[0] == 'object':
+            n = len(kids)
+            for r in range(0, 2 * n + 1):
+                j = None
+                for i in range(pos + 1, n):
+                    if 2 * i + 1 >= r:
+                        j = i
+                        break
+                if pos >= n:
+                    j = None
+                if j is not None and 2 * j + 1 == r:
+                    out.append((('field', r), 1, 0, kids[j][0], stack[:-1] + ((path, j),), True, 'in'))
+                elif j is not None:
+                    out.append((('field', r), 0, 0, None, stack[:-1] + ((path, max(pos, j - 1)),), False, 'in'))
+                else:
+                    out.append((('field', r), 0, 0, None, stack[:-1] + ((path, n),), False, 'in'))
         # leave the innermost container
         api = 'leave_' + cont[0]
         if len(stack) == 1:
@@ -409,9 +482,10 @@ class Ref:
 
 
 # ---- exploration ------------------------------------------------------------------------------------------------------
-def explore(M, tree, md, enums, report):
+def explore(M, tree, md, enums, report, lookups=False):
     spans = {}
-    toks = tokens(tree, spans)
+    names = {}
+    toks = tokens(tree, spans, names)
     offs = []
     o = 0
     for (_, raw) in toks:
@@ -420,7 +494,7 @@ def explore(M, tree, md, enums, report):
     ptype = 1 if tree[0] == 'object' else 2
     doc = (toks, offs, o, ptype, md)
     depth0 = 0 if tree[0] == 'object' else 1
-    ms0 = (0, depth0, tuple((0, 0, 0) for _ in range(md)))
+    ms0 = (0, depth0, tuple((0, 0, 0, None) for _ in range(md)))
     start = (ms0, Ref.initial())
     seen = {start: None}
     work = [start]
@@ -428,9 +502,30 @@ def explore(M, tree, md, enums, report):
     while work:
         cur = work.pop()
         ms, rs = cur
-        for (api, eret, eddepth, etype, rs2) in Ref.moves(tree, rs):
+        for (api, eret, eddepth, etype, rs2) in Ref.moves(tree, rs, lookups):
             edges += 1
-            r = M.call(doc, ms, NAV[api])
+            if isinstance(api, tuple):
+                rank = api[1]
+                opath = rs[0][-1][0]
+
+                def want(ti, rank=rank, opath=opath):
+                    pth, i = names.get(ti, (None, None))
+                    if pth != opath:
+                        return 2          # no valid answer: the step then has no matching outcome and is reported
+                    return (2 * i + 1 > rank) - (2 * i + 1 < rank)
+
+                def wantname(ti, rank=rank, opath=opath):
+                    pth, i = names.get(ti, (None, None))
+                    need(pth is not None, '%s: the current name is not a name token' % M.prop)
+                    if pth != opath:
+                        return None
+                    return (rank > 2 * i + 1) - (rank < 2 * i + 1)
+                r = M.call(doc, ms, LOOKUP, want, wantname)
+                api = 'field'
+                desc = 'field(%s)' % ('name of field #%d' % (rank // 2) if rank % 2 else 'absent name sorting before field #%d' % (rank // 2))
+            else:
+                r = M.call(doc, ms, NAV[api])
+                desc = api
 
             def trace():
                 seq = []
@@ -438,9 +533,12 @@ def explore(M, tree, md, enums, report):
                 while seen.get(c) is not None:
                     c, a = seen[c]
                     seq.append(a)
-                return list(reversed(seq)) + [api]
+                return list(reversed(seq)) + [desc]
             if r[0] == 'err':
-                report(False, 'error', api, 'an error is raised on a valid document: %s' % (r[2],), trace())
+                if isinstance(r[1], list):
+                    report(False, 'error', api, 'an error is raised on a valid document: %s' % (r[2],), trace())
+                else:
+                    report(False, 'error', api, 'the call leaves the behaviour of a cursor over a valid document: %s' % (r[2],), trace())
                 continue
             _, ms2, ret = r
             if ret != eret:
@@ -467,7 +565,7 @@ def explore(M, tree, md, enums, report):
                 continue
             nxt = (ms2, rs2)
             if nxt not in seen:
-                seen[nxt] = (cur, api)
+                seen[nxt] = (cur, desc)
                 work.append(nxt)
     return len(seen), edges
 
@@ -504,7 +602,7 @@ def _explore_part(k):
                             key = (what, api)
                             if key not in bad or (len(seq), len(show(tree))) < (len(bad[key][3]), len(bad[key][1])):
                                 bad[key] = (msg, show(tree), md, seq)
-                        s, e = explore(M, tree, md, enums, report)
+                        s, e = explore(M, tree, md, enums, report, _G.get('lookups', False))
                         out['states'] += s
                         out['edges'] += e
     except AnalysisBroken as e:
@@ -521,10 +619,10 @@ def show(tree):
     return k[:3]
 
 
-def analyse(mod, tier, prop='C06'):
+def analyse(mod, tier, prop='C06', lookups=False, bounds=None):
     """extract the machine from `mod` and explore it -> (bad, coverage dict)"""
     lay = Layout(mod)
-    table, modes, stats = c08.extract(mod, lookups=False)
+    table, modes, stats = c08.extract(mod, lookups=lookups, stubcmp=True)
     flags = stats['level_flags']
     C = Contracts(mod, LibHooks())
     enums = C._enums()
@@ -533,15 +631,17 @@ def analyse(mod, tier, prop='C06'):
     tvals = sorted({v for n, v in enums.items() if n.startswith('BINSON_TYPE_')})
     need(len(tvals) >= 8, '%s: only %d binson_type enumerators found' % (prop, len(tvals)))
     wrappers = {}
-    for api in NAV.values():
+    for api in list(NAV.values()) + ([LOOKUP] if lookups else []):
         wrappers[api] = wrapper_summary(mod, api, flags, tvals)
     cov = {'wrappers': {api: sorted({(tuple(c[0] for c in p['calls']), p['ret']) for ps in w.values() for p in ps}, key=repr)[:12]
                         for api, w in wrappers.items()}}
     M = Machine(table, wrappers, stepm.token_classes(), lay, enums)
-    bounds = [(5, 3, ('integer', 'string')), (4, 3, ('integer', 'string', 'boolean', 'double', 'bytes'))] if tier == 'quick' else \
-        [(6, 3, ('integer', 'string')), (5, 3, ('integer', 'string', 'boolean', 'double', 'bytes'))]
+    M.prop = prop
+    if bounds is None:
+        bounds = [(5, 3, ('integer', 'string')), (4, 3, ('integer', 'string', 'boolean', 'double', 'bytes'))] if tier == 'quick' else \
+            [(6, 3, ('integer', 'string')), (5, 3, ('integer', 'string', 'boolean', 'double', 'bytes'))]
     jobs = min(16, os.cpu_count() or 4)
-    _G.update(M=M, enums=enums, bounds=bounds, tier=tier, jobs=jobs)
+    _G.update(M=M, enums=enums, bounds=bounds, tier=tier, jobs=jobs, lookups=lookups)
     import multiprocessing as mp
     import sys
     sys.setrecursionlimit(20000)
